@@ -389,7 +389,6 @@ package keeper
 // DoPenalty: every 600 blocks confirmed faults accrue penalty points; providers above the maximum are taken offline.
 // The second loop ranges over a Go map: its effect is stated as a function of the map's content only (order-free).
 //@ func (Keeper) DoPenalty(ctx)
-//@   requires forall c string :: has(Node, c) ==> Node[c].Creator == c
 //@   modifies FaultIdx, FaultById
 //@   loop L1 invariant 0 <= itpos()
 //@   loop L2 invariant [C01.maporder.penalty] forall k bytes :: rawsel(FaultIdx, k) ==
